@@ -31,6 +31,9 @@ pub const REL: &[(&str, &str, &str)] = &[
 	("array-covariance", "[Ljava/lang/Object;", "[Lp/T2;"),
 	("object-vs-array", OBJ, "[I"),
 	("unknown-vs-unknown", "Lext/K;", "Ljava/lang/Integer;"),
+	("erased-to-interface-of-grandparent", "Lp/J0;", "Lp/T2;"),
+	("erased-to-superinterface", "Lp/J1;", "Lp/T2;"),
+	("jar-class-vs-library-class", "Lp/U;", "Llib/L;"),
 ];
 /// return-only relations
 pub const RET_ONLY: &[(&str, &str, &str)] = &[
@@ -73,7 +76,9 @@ pub enum Owner { This, Super, Unrelated, OutOfJar }
 pub const OWNERS: [Owner; 4] = [Owner::This, Owner::Super, Owner::Unrelated, Owner::OutOfJar];
 
 #[derive(Clone, Copy, Debug, PartialEq, Eq)]
-pub enum NameAt { Direct, Up1, Up2, Iface, DirectAndUp1, DirectUnnamedAndUp1, Up2AndIface, Nowhere }
+pub enum NameAt { Direct, Up1, Up2, Iface, DirectAndUp1, DirectUnnamedAndUp1, Up2AndIface, Nowhere, Up3, Iface0, Up1UnnamedAndUp2, Up3AndIface0 }
+/// the name locations of the relay space: everything above the bridge's class (and the direct name as control)
+pub const NAME_ATS_RELAY: [NameAt; 10] = [NameAt::Direct, NameAt::Up1, NameAt::Up2, NameAt::Up3, NameAt::Iface, NameAt::Iface0, NameAt::Up1UnnamedAndUp2, NameAt::Up2AndIface, NameAt::Up3AndIface0, NameAt::Nowhere];
 pub const NAME_ATS: [NameAt; 8] = [NameAt::Direct, NameAt::Up1, NameAt::Up2, NameAt::Iface, NameAt::DirectAndUp1, NameAt::DirectUnnamedAndUp1, NameAt::Up2AndIface, NameAt::Nowhere];
 
 #[derive(Clone, Copy, Debug, PartialEq, Eq)]
@@ -85,7 +90,25 @@ pub enum ClassEntry { Named, WithoutTargetName, Absent }
 pub const CLASS_ENTRIES: [ClassEntry; 3] = [ClassEntry::Named, ClassEntry::WithoutTargetName, ClassEntry::Absent];
 
 #[derive(Clone, Copy, Debug, PartialEq, Eq)]
-pub enum Calamus { Identity, Empty, Renames, RenamesInherited }
+pub enum Calamus { Identity, Empty, Renames, RenamesInherited, RenamesUp1, RenamesUp2, RenamesIface, RenamesIface0 }
+/// calamus modes in which the bridge's intermediary name comes from a super type only
+pub const CALAMI_INHERITING: [Calamus; 5] = [Calamus::RenamesInherited, Calamus::RenamesUp1, Calamus::RenamesUp2, Calamus::RenamesIface, Calamus::RenamesIface0];
+
+/// state of a class entry of the intermediary→named mappings
+#[derive(Clone, Copy, Debug, PartialEq, Eq)]
+pub enum Ent { Named, WithoutTargetName, Absent }
+pub const ENTS: [Ent; 3] = [Ent::Named, Ent::WithoutTargetName, Ent::Absent];
+
+/// where the delegate is declared: in the class the call names, in that class' super class (the call names a
+/// sub class, as javac does), in no class of any jar
+#[derive(Clone, Copy, Debug, PartialEq, Eq)]
+pub enum Decl { AtOwner, AboveOwner, Nowhere }
+pub const DECLS: [Decl; 3] = [Decl::AtOwner, Decl::AboveOwner, Decl::Nowhere];
+
+/// what kind of class file holds the candidate
+#[derive(Clone, Copy, Debug, PartialEq, Eq)]
+pub enum Holder { Class, Interface, Abstract, Final, Synthetic, Enum }
+pub const HOLDERS: [Holder; 6] = [Holder::Class, Holder::Interface, Holder::Abstract, Holder::Final, Holder::Synthetic, Holder::Enum];
 pub const CALAMI: [Calamus; 4] = [Calamus::Identity, Calamus::Empty, Calamus::Renames, Calamus::RenamesInherited];
 
 /// modifiers explored on the candidate: none, private, static, final, static final, private static final
@@ -94,10 +117,32 @@ pub const MODIFIERS: [u16; 6] = [0, 0x0002, 0x0008, 0x0010, 0x0018, 0x001a];
 /// One world with one candidate method.
 #[derive(Clone, Debug)]
 pub struct Spec {
-	/// the candidate's class: 0 = p/A, 1 = p/B (extends p/A), 2 = p/C (extends p/B)
+	/// the candidate's class: 0 = p/A, 1 = p/B (extends p/A), 2 = p/C (extends p/B), 3 = p/D (extends p/C)
 	pub level: usize,
 	pub place_a: Place,
 	pub place_b: Place,
+	pub place_c: Place,
+	/// the interface p/I is attached to the class this many levels above the candidate's class
+	pub iface_on: usize,
+	/// p/I extends p/I0 (which declares the method too)
+	pub iface_super: bool,
+	/// class entries of the intermediary→named mappings of [1 up, 2 up, 3 up, p/I, p/I0]
+	pub ent_named: [Ent; 5],
+	/// [1 up, 2 up, 3 up, p/I, p/I0] has no class entry in the calamus mappings
+	pub calamus_absent: [bool; 5],
+	pub decl: Decl,
+	pub holder: Holder,
+	/// fields in the candidate's class
+	pub fields: usize,
+	/// the candidate's class holds further methods with calls (the delegate calls helpers, an ordinary and a static
+	/// synthetic method call the delegate, a synthetic method calls two methods)
+	pub busy: bool,
+	/// the candidate is the last method of its class (else the first)
+	pub candidate_last: bool,
+	/// class-level attributes on the candidate's class
+	pub class_attrs: bool,
+	/// a library jar holds a class with a flagged bridge, and the mappings name both of its methods
+	pub lib_bridge: bool,
 	pub a_super: ASuper,
 	pub iface: Iface,
 	pub syn: Syn,
@@ -121,7 +166,9 @@ pub struct Spec {
 impl Default for Spec {
 	fn default() -> Spec {
 		Spec {
-			level: 2, place_a: Place::Main, place_b: Place::Main, a_super: ASuper::Object, iface: Iface::None,
+			level: 2, place_a: Place::Main, place_b: Place::Main, place_c: Place::Main, a_super: ASuper::Object, iface: Iface::None,
+			iface_on: 0, iface_super: false, ent_named: [Ent::Named; 5], calamus_absent: [false; 5], decl: Decl::AtOwner,
+			holder: Holder::Class, fields: 0, busy: false, candidate_last: false, class_attrs: false, lib_bridge: false,
 			syn: Syn::Flag, bridge_flag: true, modifier: 0, calls: Calls::One, params: vec![2], ret: 0, delta: 0, same_name: true, owner: Owner::This,
 			name_at: NameAt::Direct, delegate_entry: DelegateEntry::Absent, class_entry: ClassEntry::Named, calamus: Calamus::Identity,
 		}
@@ -131,9 +178,24 @@ impl Default for Spec {
 impl Spec {
 	pub fn label(&self) -> String {
 		let p: Vec<&str> = self.params.iter().map(|i| REL[*i].0).collect();
-		format!("level={} A:{:?} B:{:?} A-super:{:?} iface:{:?} | {:?} bridge-flag={} modifier={:#06x} calls:{:?} params:{:?} return:{} delta={} same-name={} owner:{:?} | name:{:?} delegate:{:?} class:{:?} calamus:{:?}",
+		let base = format!("level={} A:{:?} B:{:?} A-super:{:?} iface:{:?} | {:?} bridge-flag={} modifier={:#06x} calls:{:?} params:{:?} return:{} delta={} same-name={} owner:{:?} | name:{:?} delegate:{:?} class:{:?} calamus:{:?}",
 			self.level, self.place_a, self.place_b, self.a_super, self.iface, self.syn, self.bridge_flag, self.modifier, self.calls, p, ret_rel(self.ret).0, self.delta, self.same_name, self.owner,
-			self.name_at, self.delegate_entry, self.class_entry, self.calamus)
+			self.name_at, self.delegate_entry, self.class_entry, self.calamus);
+		let d = Spec::default();
+		let mut extra = String::new();
+		if self.place_c != d.place_c || self.iface_on != 0 || self.iface_super {
+			extra.push_str(&format!(" C:{:?} iface-on:+{} iface-super={}", self.place_c, self.iface_on, self.iface_super));
+		}
+		if self.ent_named != d.ent_named || self.calamus_absent != d.calamus_absent {
+			extra.push_str(&format!(" entries[up1,up2,up3,I,I0]:{:?} calamus-absent:{:?}", self.ent_named, self.calamus_absent));
+		}
+		if self.decl != d.decl {
+			extra.push_str(&format!(" delegate-declared:{:?}", self.decl));
+		}
+		if self.holder != d.holder || self.fields != 0 || self.busy || self.candidate_last || self.class_attrs || self.lib_bridge {
+			extra.push_str(&format!(" holder:{:?} fields={} busy={} candidate-last={} class-attributes={} library-bridge={}", self.holder, self.fields, self.busy, self.candidate_last, self.class_attrs, self.lib_bridge));
+		}
+		base + &extra
 	}
 }
 
@@ -161,10 +223,12 @@ fn add_method(c: &mut SClass, m: SMethod) {
 /// the classes the signature relations refer to (always in the main jar)
 pub fn type_universe() -> Vec<SClass> {
 	vec![
-		class("p/T0", "java/lang/Object", &[]),
+		class("p/T0", "java/lang/Object", &["p/J0"]),
 		class("p/T1", "p/T0", &[]),
 		class("p/T2", "p/T1", &["p/J"]),
-		interface("p/J", &[]),
+		interface("p/J", &["p/J1"]),
+		interface("p/J0", &[]),
+		interface("p/J1", &[]),
 		class("p/U", "java/lang/Object", &[]),
 		class("p/X", "lib/L", &[]),
 	]
@@ -224,7 +288,7 @@ pub fn descs(spec: &Spec) -> (String, String) {
 }
 
 pub fn build(spec: &Spec) -> Built {
-	let chain = ["p/A", "p/B", "p/C"];
+	let chain = ["p/A", "p/B", "p/C", "p/D"];
 	let a_super = match spec.a_super { ASuper::Object => "java/lang/Object", ASuper::LibL => "lib/L", ASuper::Ext => "ext/E" };
 	let bc = chain[spec.level];
 	let (bdesc, sdesc) = descs(spec);
@@ -240,6 +304,16 @@ pub fn build(spec: &Spec) -> Built {
 	let other_desc: MRef = (owner.to_owned(), delegate.1.clone(), "(J)V".to_owned());
 	let other_owner: MRef = ("p/U".to_owned(), delegate.1.clone(), sdesc.clone());
 	let opc = match spec.owner { Owner::This => op::INVOKEVIRTUAL, Owner::Super => op::INVOKESPECIAL, Owner::Unrelated => op::INVOKESTATIC, Owner::OutOfJar => op::INVOKEINTERFACE };
+	// the class that declares the delegate (the call may name a sub class of it)
+	let decl_class: Option<&str> = match spec.decl {
+		Decl::AtOwner => Some(owner),
+		Decl::AboveOwner => Some(match chain.iter().position(|k| *k == owner) {
+			Some(i) if i > 0 => chain[i - 1],
+			_ => owner,
+		}),
+		Decl::Nowhere => None,
+	};
+	let declared_delegate: Option<MRef> = decl_class.map(|k| (k.to_owned(), delegate.1.clone(), delegate.2.clone()));
 
 	// the candidate
 	let mut body = vec![SInsn::Load(LvKind::A, 0)];
@@ -273,42 +347,100 @@ pub fn build(spec: &Spec) -> Built {
 
 	// the hierarchy
 	let i_name = "p/I";
-	let mut a = class("p/A", a_super, &[]);
-	let mut b = class("p/B", "p/A", &[]);
-	let mut c = class("p/C", "p/B", &[]);
+	let i0_name = "p/I0";
+	let mut ch: Vec<SClass> = vec![class("p/A", a_super, &[]), class("p/B", "p/A", &[]), class("p/C", "p/B", &[]), class("p/D", "p/C", &[])];
 	let mut u = class("p/U", "java/lang/Object", &[]);
-	let mut itf = interface(i_name, &[]);
+	let i_supers: Vec<&str> = if spec.iface_super { vec![i0_name] } else { vec![] };
+	let mut itf = interface(i_name, &i_supers);
 	itf.methods.push(method(0x0401, "m", &bdesc, None));
-	{
-		let bridge_class = match spec.level { 0 => &mut a, 1 => &mut b, _ => &mut c };
-		if spec.iface != Iface::None {
-			bridge_class.interfaces.push(js(i_name));
-		}
-		bridge_class.methods.push(candidate);
-		bridge_class.methods.push(method(0x0001, "other", "()V", Some(vec![RETURN])));
+	let mut itf0 = interface(i0_name, &[]);
+	itf0.methods.push(method(0x0401, "m", &bdesc, None));
+	if spec.iface != Iface::None {
+		ch[spec.level.saturating_sub(spec.iface_on)].interfaces.push(js(i_name));
 	}
+	// the methods of the candidate's class besides the candidate; the candidate is put first or last at the end
+	ch[spec.level].methods.push(method(0x0001, "other", "()V", Some(vec![RETURN])));
 	// the generic method the bridge overrides, at the top of the chain
 	if spec.level > 0 {
-		add_method(&mut a, method(0x0001, "m", &bdesc, Some(vec![RETURN])));
+		add_method(&mut ch[0], method(0x0001, "m", &bdesc, Some(vec![RETURN])));
 	}
-	// the delegate (and the second target) where they are referenced
-	for (r, acc) in [(&delegate, 0x0001u16), (&other, 0x0001)] {
-		let acc = if spec.owner == Owner::Unrelated { acc | 0x0008 } else { acc };
-		let m = method(acc, &r.1, &r.2, Some(vec![RETURN]));
+	// the delegate where it is declared, the second target where it is referenced
+	let helper1: MRef = ("p/U".to_owned(), "helper".to_owned(), "()V".to_owned());
+	let helper2: MRef = ("p/U".to_owned(), "helper".to_owned(), "(I)V".to_owned());
+	for (r, is_delegate) in [(declared_delegate.as_ref(), true), (Some(&other), false)] {
+		let Some(r) = r else { continue };
+		let acc = if spec.owner == Owner::Unrelated { 0x0009 } else { 0x0001 };
+		let insns = if is_delegate && spec.busy {
+			// a delegate that calls methods itself
+			vec![invoke(op::INVOKESTATIC, &helper1), SInsn::BiPush(1), invoke(op::INVOKESTATIC, &helper2), RETURN]
+		} else {
+			vec![RETURN]
+		};
+		let m = method(acc, &r.1, &r.2, Some(insns));
 		match r.0.as_str() {
-			"p/A" => add_method(&mut a, m),
-			"p/B" => add_method(&mut b, m),
-			"p/C" => add_method(&mut c, m),
 			"p/U" => add_method(&mut u, m),
-			_ => {},
+			k => {
+				if let Some(i) = chain.iter().position(|x| *x == k) {
+					add_method(&mut ch[i], m);
+				}
+			},
+		}
+	}
+	if spec.busy {
+		let k = &mut ch[spec.level];
+		// an ordinary method that calls the delegate only, with the candidate's signature
+		add_method(k, method(0x0001, "wrap", &bdesc, Some(vec![SInsn::Load(LvKind::A, 0), invoke(opc, &delegate), RETURN])));
+		// a static synthetic accessor that calls the delegate only, with the delegate's signature
+		add_method(k, method(0x0008 | ACC_SYNTHETIC, "access$000", &sdesc, Some(vec![invoke(opc, &delegate), RETURN])));
+		// a synthetic method that calls the delegate and a helper (a lambda body)
+		add_method(k, method(0x0002 | ACC_SYNTHETIC, "lambda$m$0", &bdesc, Some(vec![invoke(opc, &delegate), invoke(op::INVOKESTATIC, &helper1), RETURN])));
+		if let Some(o) = k.methods.iter_mut().find(|m| m.name == js("other")) {
+			o.code = Some(SCode { max_stack: 8, max_locals: 8, insns: vec![invoke(op::INVOKESTATIC, &helper1), invoke(opc, &delegate), RETURN], ..Default::default() });
+		}
+	}
+	{
+		let k = &mut ch[spec.level];
+		// a delegate with the candidate's own name and descriptor is the candidate itself
+		k.methods.retain(|m| !(m.name == candidate.name && m.desc == candidate.desc));
+		if spec.candidate_last {
+			k.methods.push(candidate);
+		} else {
+			k.methods.insert(0, candidate);
+		}
+		for i in 0..spec.fields {
+			let synthetic = if i % 2 == 1 { ACC_SYNTHETIC } else { 0 };
+			k.fields.push(SField { access: 0x0002 | synthetic, name: js(&format!("f{i}")), desc: js(if i % 2 == 0 { "I" } else { "Lp/T2;" }), ..Default::default() });
+		}
+		k.access = match spec.holder {
+			Holder::Class => 0x0021,
+			Holder::Interface => 0x0601,
+			Holder::Abstract => 0x0421,
+			Holder::Final => 0x0031,
+			Holder::Synthetic => 0x1021,
+			Holder::Enum => 0x4031,
+		};
+		if spec.class_attrs {
+			k.signature = Some(js("<T:Ljava/lang/Object;>Ljava/lang/Object;"));
+			k.source_file = Some(js("Holder.java"));
+			k.deprecated = true;
+			k.synthetic = true;
+			k.inner_classes = Some(vec![SInnerClass { inner: js("p/C$1"), outer: None, name: None, flags: 0x1000 }, SInnerClass { inner: js("p/C$In"), outer: Some(js("p/C")), name: Some(js("In")), flags: 0x0009 }]);
+			k.nest_members = Some(vec![js("p/C$In")]);
+			k.record = Some(vec![SRecordComponent { name: js("m"), desc: js("I"), ..Default::default() }]);
+			k.unknown = vec![SUnknown { name: js("org.example.Marker"), bytes: vec![1, 2, 3] }];
 		}
 	}
 	let mut main: Vec<SClass> = type_universe().into_iter().filter(|k| k.this_class != js("p/U")).collect();
 	main.push(u);
 	let mut lib1 = vec![class("lib/L", "java/lang/Object", &[])];
 	let mut lib2 = Vec::new();
-	let placed = [(a, if spec.level == 0 { Place::Main } else { spec.place_a }), (b, if spec.level <= 1 { Place::Main } else { spec.place_b }), (c, Place::Main)];
-	for (k, p) in placed {
+	let places = [
+		if spec.level == 0 { Place::Main } else { spec.place_a },
+		if spec.level <= 1 { Place::Main } else { spec.place_b },
+		if spec.level <= 2 { Place::Main } else { spec.place_c },
+		if spec.level == 3 { Place::Main } else { Place::Nowhere },
+	];
+	for (k, p) in ch.into_iter().zip(places) {
 		match p {
 			Place::Main => main.push(k),
 			Place::Lib => lib2.push(k),
@@ -316,13 +448,45 @@ pub fn build(spec: &Spec) -> Built {
 		}
 	}
 	match spec.iface {
-		Iface::None | Iface::Main => main.push(itf),
-		Iface::Lib => lib1.push(itf),
+		Iface::None | Iface::Main => {
+			main.push(itf);
+			if spec.iface_super {
+				main.push(itf0);
+			}
+		},
+		Iface::Lib => {
+			lib1.push(itf);
+			if spec.iface_super {
+				lib1.push(itf0);
+			}
+		},
+	}
+	let lib_bridge_desc = ("(Ljava/lang/Object;)V", "(Lp/T2;)V");
+	if spec.lib_bridge {
+		// a bridge pattern in a library: not a method of the main jar
+		let mut lb = class("lib/LB", "java/lang/Object", &[]);
+		let target: MRef = ("lib/LB".to_owned(), "m".to_owned(), lib_bridge_desc.1.to_owned());
+		lb.methods.push(method(0x0001 | ACC_SYNTHETIC | ACC_BRIDGE, "m", lib_bridge_desc.0, Some(vec![SInsn::Load(LvKind::A, 0), SInsn::Load(LvKind::A, 1), invoke(op::INVOKEVIRTUAL, &target), RETURN])));
+		lb.methods.push(method(0x0001, "m", lib_bridge_desc.1, Some(vec![RETURN])));
+		lib1.push(lb);
 	}
 	let mut libs = vec![lib1];
 	if !lib2.is_empty() {
 		libs.push(lib2);
 	}
+
+	// the classes whose entries are varied: [1 up, 2 up, 3 up, p/I, p/I0] (official names)
+	let up_official = |k: usize| -> Option<&str> {
+		let idx = spec.level as isize - k as isize;
+		if idx >= 0 {
+			Some(chain[idx as usize])
+		} else if idx == -1 && a_super != "java/lang/Object" {
+			Some(a_super)
+		} else {
+			None
+		}
+	};
+	let roles: [Option<&str>; 5] = [up_official(1), up_official(2), up_official(3), Some(i_name), if spec.iface_super { Some(i0_name) } else { None }];
 
 	// calamus: official -> intermediary
 	let mut calamus = MSet::new(&["official", "intermediary"]);
@@ -334,7 +498,7 @@ pub fn build(spec: &Spec) -> Built {
 			for k in &all_classes {
 				calamus.classes.insert(k.clone(), MClass { names: row2(k, Some(k)), ..Default::default() });
 			}
-			for r in [&bridge, &delegate] {
+			for r in [Some(&bridge), declared_delegate.as_ref()].into_iter().flatten() {
 				if declared(r) {
 					if let Some(k) = calamus.classes.get_mut(&r.0) {
 						k.methods.entry((r.1.clone(), r.2.clone())).or_insert_with(|| MMethod { names: row2(&r.1, Some(&r.1)), ..Default::default() });
@@ -342,24 +506,43 @@ pub fn build(spec: &Spec) -> Built {
 				}
 			}
 		},
-		Calamus::Renames | Calamus::RenamesInherited => {
+		_ => {
 			for k in &all_classes {
 				calamus.classes.insert(k.clone(), MClass { names: row2(k, Some(&format!("q/{}_", simple(k)))), ..Default::default() });
 			}
-			let top: MRef = ("p/A".to_owned(), "m".to_owned(), bdesc.clone());
-			let mut entries: Vec<(&MRef, String)> = vec![(&top, "m_b".to_owned())];
-			if spec.calamus == Calamus::Renames {
-				entries.push((&bridge, "m_b".to_owned()));
+			// the class that gives the bridge its intermediary name ("m_b"); `true`: only if the method is declared there
+			let source: (Option<&str>, bool) = match spec.calamus {
+				Calamus::RenamesUp1 => (up_official(1), false),
+				Calamus::RenamesUp2 => (up_official(2), false),
+				Calamus::RenamesIface => (Some(i_name), false),
+				Calamus::RenamesIface0 => (roles[4], false),
+				_ => (Some("p/A"), true),
+			};
+			let mut entries: Vec<(MRef, String, bool)> = Vec::new();
+			if let Some(k) = source.0 {
+				entries.push(((k.to_owned(), "m".to_owned(), bdesc.clone()), "m_b".to_owned(), source.1));
 			}
-			entries.push((&delegate, format!("{}_s", delegate.1)));
-			for (r, to) in entries {
-				if declared(r) {
+			if spec.calamus == Calamus::Renames {
+				entries.push((bridge.clone(), "m_b".to_owned(), true));
+			}
+			if let Some(d) = &declared_delegate {
+				entries.push((d.clone(), format!("{}_s", delegate.1), true));
+			}
+			for (r, to, only_declared) in entries {
+				if !only_declared || declared(&r) {
 					if let Some(k) = calamus.classes.get_mut(&r.0) {
 						k.methods.entry((r.1.clone(), r.2.clone())).or_insert_with(|| MMethod { names: row2(&r.1, Some(&to)), ..Default::default() });
 					}
 				}
 			}
 		},
+	}
+	for (role, absent) in roles.iter().zip(spec.calamus_absent) {
+		if let (Some(k), true) = (role, absent) {
+			if *k != bc {
+				calamus.classes.remove(*k);
+			}
+		}
 	}
 
 	let mut input = Input { main, libs, calamus, mappings: MSet::new(&["intermediary", "named"]) };
@@ -369,7 +552,7 @@ pub fn build(spec: &Spec) -> Built {
 		let ib = w.int_ref(&bridge).unwrap_or_else(|| bridge.clone());
 		let idl = w.int_ref(&delegate).unwrap_or_else(|| delegate.clone());
 		let mut ic = BTreeMap::new();
-		for k in all_classes.iter().map(|s| s.as_str()).chain(["p/A", "p/B", "p/C", "p/I", "lib/L", "ext/E", "ext/K2", "java/lang/Object"]) {
+		for k in all_classes.iter().map(|s| s.as_str()).chain(["p/A", "p/B", "p/C", "p/D", "p/I", "p/I0", "lib/L", "lib/LB", "ext/E", "ext/K2", "java/lang/Object"]) {
 			ic.insert(k.to_owned(), w.int_class(k));
 		}
 		(ib, idl, ic)
@@ -380,27 +563,21 @@ pub fn build(spec: &Spec) -> Built {
 		m.classes.insert(k.clone(), MClass { names: row2(k, Some(&format!("n/{}", simple(k)))), ..Default::default() });
 	}
 	// where the bridge gets its name from
-	let up = |k: usize| -> Option<String> {
-		let idx = spec.level as isize - k as isize;
-		if idx >= 0 {
-			Some(ic[chain[idx as usize]].clone())
-		} else if idx == -1 && a_super != "java/lang/Object" {
-			Some(ic[a_super].clone())
-		} else {
-			None
-		}
-	};
+	let up = |k: usize| -> Option<String> { up_official(k).map(|c| ic[c].clone()) };
 	let mut name_in = |cls: Option<String>, target: Option<&str>| {
 		if let Some(cls) = cls {
 			put_method(&mut m, &cls, &ib.1, &ib.2, target);
 		}
 	};
 	let itf_int = ic[i_name].clone();
+	let itf0_int = roles[4].map(|k| ic[k].clone());
 	match spec.name_at {
 		NameAt::Direct => name_in(up(0), Some("nm_direct")),
 		NameAt::Up1 => name_in(up(1), Some("nm_up1")),
 		NameAt::Up2 => name_in(up(2), Some("nm_up2")),
+		NameAt::Up3 => name_in(up(3), Some("nm_up3")),
 		NameAt::Iface => name_in(Some(itf_int), Some("nm_iface")),
+		NameAt::Iface0 => name_in(itf0_int, Some("nm_iface0")),
 		NameAt::DirectAndUp1 => {
 			name_in(up(0), Some("nm_direct"));
 			name_in(up(1), Some("nm_up1"));
@@ -409,9 +586,17 @@ pub fn build(spec: &Spec) -> Built {
 			name_in(up(0), None);
 			name_in(up(1), Some("nm_up1"));
 		},
+		NameAt::Up1UnnamedAndUp2 => {
+			name_in(up(1), None);
+			name_in(up(2), Some("nm_up2"));
+		},
 		NameAt::Up2AndIface => {
 			name_in(up(2), Some("nm_up2"));
 			name_in(Some(itf_int), Some("nm_iface"));
+		},
+		NameAt::Up3AndIface0 => {
+			name_in(up(3), Some("nm_up3"));
+			name_in(itf0_int, Some("nm_iface0"));
 		},
 		NameAt::Nowhere => {},
 	}
@@ -425,6 +610,13 @@ pub fn build(spec: &Spec) -> Built {
 		params.insert(1, MParam { names: row2("p1", Some("np1")), doc: None });
 		k.methods.insert(("other".into(), "()V".into()), MMethod { names: row2("other", Some("nother")), doc: Some("untouched".into()), params });
 		k.methods.entry((idl.1.clone(), "(JJ)V".into())).or_insert_with(|| MMethod { names: row2(&idl.1, Some("overload")), ..Default::default() });
+		if spec.busy {
+			// the further methods with calls carry names of their own: none of them may reach the delegate
+			let w = World::new(&input);
+			for (name, desc, to) in [("wrap", &bdesc, "nwrap"), ("access$000", &sdesc, "naccess"), ("lambda$m$0", &bdesc, "nlambda")] {
+				k.methods.entry((name.to_owned(), w.int_desc(desc))).or_insert_with(|| MMethod { names: row2(name, Some(to)), ..Default::default() });
+			}
+		}
 	}
 	if idl.0 != bci {
 		let k = m.classes.entry(idl.0.clone()).or_insert_with(|| MClass { names: row2(&idl.0, Some(&format!("n/{}", simple(&idl.0)))), ..Default::default() });
@@ -434,6 +626,12 @@ pub fn build(spec: &Spec) -> Built {
 		let t2 = ic["p/T2"].clone();
 		let k = m.classes.entry(t2).or_default();
 		k.methods.entry((idl.1.clone(), idl.2.clone())).or_insert_with(|| MMethod { names: row2(&idl.1, Some("same_key_elsewhere")), ..Default::default() });
+	}
+	if spec.lib_bridge {
+		let w = World::new(&input);
+		let k = m.classes.entry(ic["lib/LB"].clone()).or_default();
+		k.methods.insert(("m".into(), w.int_desc(lib_bridge_desc.0)), MMethod { names: row2("m", Some("name_of_the_library_bridge")), ..Default::default() });
+		k.methods.insert(("m".into(), w.int_desc(lib_bridge_desc.1)), MMethod { names: row2("m", Some("name_of_the_library_delegate")), ..Default::default() });
 	}
 	// the delegate's entry inside the bridge's class
 	let dkey = (idl.1.clone(), idl.2.clone());
@@ -477,6 +675,24 @@ pub fn build(spec: &Spec) -> Built {
 	for (key, k) in m.classes.iter_mut() {
 		if k.names.is_empty() {
 			k.names = row2(key, Some(&format!("n/{}", simple(key))));
+		}
+	}
+	// the class entries of the super types (whatever they hold goes with them)
+	for (role, ent) in roles.iter().zip(spec.ent_named) {
+		let Some(k) = role.map(|k| ic[k].clone()) else { continue };
+		if k == bci {
+			continue;
+		}
+		match ent {
+			Ent::Named => {},
+			Ent::WithoutTargetName => {
+				if let Some(e) = m.classes.get_mut(&k) {
+					e.names = row2(&k, None);
+				}
+			},
+			Ent::Absent => {
+				m.classes.remove(&k);
+			},
 		}
 	}
 	input.mappings = m;
